@@ -1,7 +1,7 @@
 (** C17 — property theorems only: statement, [exact] of a lemma proved in Proofs/C17_Sampling.v, [Print Assumptions].
     Model: Model/C17_Sampling.v (mirrors pybrops/core/random/sampling.py and core/util/array.py:sliceaxisix). *)
 From Coq Require Import Permutation Sorting.Sorted Qround PrimFloat.
-From PV Require Import Lib.Common Model.C17_Sampling Proofs.C17_Sampling.
+From PV Require Import Lib.Common Lib.FloatK Model.C17_Sampling Proofs.C17_Sampling Gen.C17_Kernel Model.C17_KernelProg Proofs.C17_Kernel Proofs.C17_Laws Proofs.C17_Float.
 
 (** * stochastic universal sampling *)
 
@@ -287,3 +287,152 @@ Example C17_within_one_hyps_satisfiable :
   Qceiling (nth 1 (map f2q [1%float; 1%float]) 0 * inject_Z 98 / sumQ (map f2q [1%float; 1%float])) = 49%Z /\
   Qfloor (nth 0 (map f2q [1%float; 1%float]) 0 * inject_Z 98 / sumQ (map f2q [1%float; 1%float])) = 49%Z.
 Proof. repeat split; vm_compute; reflexivity. Qed.
+
+(** * the kernel expressions of the CURRENT source
+    Gen/C17_Kernel.v is regenerated from pybrops/core/random/sampling.py on every run (harness/translate/c17_kernel.py);
+    Model/C17_KernelProg.v assembles the four utilities from the generated comparisons, quotients, index expressions and
+    argument orders.  The theorems below are about those programs: a changed expression of the source breaks them. *)
+
+(** the assembled programs are the hand model, for all inputs, draws and shuffles *)
+Theorem C17_kernel_is_model :
+  (forall p order k off perm, length order = length p -> k_sus_f p order k off perm = sus_f p order k off perm) /\
+  (forall p order k off perm, length order = length p -> k_sus_q p order k off perm = sus_q p order k off perm) /\
+  (forall p k, k_sus_draw p k = option_map (fun high => (0%float, high)) (sus_high_f p k)) /\
+  (forall n ns choice perm, (0 < n)%nat -> k_tiled_sel n ns choice perm = tiled_sel n ns choice perm) /\
+  (forall n ns, k_tiled_req n ns = Z.of_nat (tiled_re n ns)) /\
+  (forall shape axis pms a, k_axis_shuffle shape axis pms a = axis_shuffle shape axis pms a) /\
+  (forall m x pms, k_outcross m x pms = outcross m x pms).
+Proof. exact kernel_is_model. Qed.
+Print Assumptions C17_kernel_is_model.
+
+(** the generated guard of the walk: the index moves on exactly while it is below [last] and the cumulative sum is at or
+    below the pointer - the cells are half open, a pointer on a boundary belongs to the next element *)
+Theorem C17_kernel_guard_half_open : forall ix last c ptr,
+  k_sus_guard ix last c ptr = true <-> (ix < last)%Z /\ c <= ptr.
+Proof. exact kernel_guard_half_open. Qed.
+Print Assumptions C17_kernel_guard_half_open.
+
+(** stochastic universal sampling as assembled from the generated expressions, exact rationals: exactly k draws, floor or
+    ceiling of the expected count, never an element of zero weight (the offset bound is the generated pointer distance) *)
+Theorem C17_kernel_sus_count_floor_ceil_no_zero_weight :
+  forall (p : list Q) (order : list nat) (k : nat) (off : Q) (perm : list nat),
+  Forall (fun x => 0 <= x) p -> 0 < sumQ p -> Permutation order (seq 0 (length p)) ->
+  nonincr (gather 0 p order) = true ->
+  ((0 < k)%nat -> 0 <= off /\ off < k_sus_dist_q (sumQ p) (inject_Z (Z.of_nat k))) -> Permutation perm (seq 0 k) ->
+  exists sel, k_sus_q p order k off perm = Some sel /\ length sel = k /\
+    forall i, (i < length p)%nat ->
+      (Qfloor (nth i p 0 * inject_Z (Z.of_nat k) / sumQ p)%Q <= Z.of_nat (count_nat i sel)
+       <= Qceiling (nth i p 0 * inject_Z (Z.of_nat k) / sumQ p)%Q)%Z
+      /\ (nth i p 0 == 0 -> count_nat i sel = 0%nat).
+Proof. exact kernel_sus_q_spec. Qed.
+Print Assumptions C17_kernel_sus_count_floor_ceil_no_zero_weight.
+
+(** the same program on the binary64 pointers and cumulative sums, whatever the rounding and the offset: exactly k draws,
+    only elements of positive weight *)
+Theorem C17_kernel_sus_float_count_no_zero_weight : forall (p : list float) order k off perm,
+  let pq := map f2q p in
+  Forall (fun x => 0 <= x) pq -> 0 < sumQ pq -> Permutation order (seq 0 (length p)) ->
+  nonincr (gather 0 pq order) = true -> Permutation perm (seq 0 k) ->
+  exists sel, k_sus_f p order k off perm = Some sel /\ length sel = k /\
+    (forall i, In i sel -> (i < length p)%nat /\ 0 < nth i pq 0) /\
+    (forall i, nth i pq 0 == 0 -> count_nat i sel = 0%nat).
+Proof. exact kernel_sus_f_spec. Qed.
+Print Assumptions C17_kernel_sus_float_count_no_zero_weight.
+
+(** ... and within one draw of floor/ceiling under the numerical hypotheses evaluated for every generated case *)
+Theorem C17_kernel_sus_float_within_one : forall (p : list float) order k off perm (dp dc : Q),
+  let pq := map f2q p in
+  Forall (fun x => 0 <= x) pq -> 0 < sumQ pq -> Permutation order (seq 0 (length p)) ->
+  nonincr (gather 0 pq order) = true -> (0 < k)%nat -> Permutation perm (seq 0 k) ->
+  0 <= dp -> 0 <= dc -> 2 * (dp + dc) < sumQ pq / inject_Z (Z.of_nat k) ->
+  0 <= f2q off -> f2q off < sumQ pq / inject_Z (Z.of_nat k) + (dp + dc) ->
+  StronglySorted Qle (map f2q (fcumsum (gather 0%float p order))) ->
+  StronglySorted Qle (map f2q (sus_ptrs_f (fsum p) k off)) ->
+  Forall2 (fun a b => b - dc <= a /\ a <= b + dc) (map f2q (fcumsum (gather 0%float p order))) (cumsum (gather 0 pq order)) ->
+  Forall2 (fun a b => b - dp <= a /\ a <= b + dp) (map f2q (sus_ptrs_f (fsum p) k off)) (sus_ptrs_q (sumQ pq) k (f2q off)) ->
+  exists sel, k_sus_f p order k off perm = Some sel /\ length sel = k /\
+    forall i, (i < length p)%nat ->
+      (Qfloor (nth i pq 0 * inject_Z (Z.of_nat k) / sumQ pq)%Q - 1 <= Z.of_nat (count_nat i sel)
+       <= Qceiling (nth i pq 0 * inject_Z (Z.of_nat k) / sumQ pq)%Q + 1)%Z.
+Proof. exact kernel_sus_f_within_one. Qed.
+Print Assumptions C17_kernel_sus_float_within_one.
+
+(** tiled sampling assembled from the generated divmod and slice bounds: every option is used qu or qu+1 times *)
+Theorem C17_kernel_tiled_even : forall (n nsample : nat) (choice perm : list nat),
+  (0 < n)%nat -> NoDup choice -> Forall (fun t => (t < n)%nat) choice ->
+  Z.of_nat (length choice) = k_tiled_re (Z.of_nat nsample) (Z.of_nat n) ->
+  Permutation perm (seq 0 nsample) ->
+  exists sel, k_tiled_sel n nsample choice perm = Some sel /\ length sel = nsample /\
+    Forall (fun t => (t < n)%nat) sel /\
+    forall i, (i < n)%nat -> count_nat i sel = (Z.to_nat (k_tiled_qu (Z.of_nat nsample) (Z.of_nat n)) + count_nat i choice)%nat
+                             /\ (count_nat i choice <= 1)%nat.
+Proof. exact kernel_tiled_even. Qed.
+Print Assumptions C17_kernel_tiled_even.
+
+(** outcross shuffling assembled from the generated objective term, acceptance test, exchange list, exchange statement
+    and continuation: terminates within objective+1 passes for every oracle, permutes the entries, never raises the
+    objective, and stops only when no exchange of two entries lowers it *)
+Theorem C17_kernel_outcross_spec : forall m x pms,
+  ((Z.to_nat (k_oc_objfn m x) < length pms)%nat -> exists r, k_outcross m x pms = Some r) /\
+  forall y n, k_outcross m x pms = Some (y, n) ->
+    Permutation y x /\ (k_oc_objfn m y <= k_oc_objfn m x)%Z /\ (1 <= n <= Z.to_nat (k_oc_objfn m x) + 1)%nat /\
+    (Forall (fun pm => Permutation pm (seq 0 (length (k_oc_pairs (length x))))) pms ->
+     forall i j, (i < j < length y)%nat -> (k_oc_objfn m y <= k_oc_objfn m (k_oc_exchange i j y))%Z).
+Proof. exact kernel_outcross_spec. Qed.
+Print Assumptions C17_kernel_outcross_spec.
+
+(** non-vacuity of the kernel theorems: the assembled programs run on the values of [C17_hyps_satisfiable] *)
+Example C17_kernel_hyps_satisfiable :
+  (0 <= 1#4 /\ (1#4) < k_sus_dist_q (sumQ [1#2; 0; 3; 3#2]) (inject_Z 4) /\
+   option_map (count_nat 2) (k_sus_q [1#2; 0; 3; 3#2] [2; 3; 0; 1]%nat 4 (1#4) [3; 1; 0; 2]%nat) = Some 3%nat) /\
+  k_sus_f [1%float; 2%float; 1%float] [1; 0; 2]%nat 4 0.25%float [3; 2; 1; 0]%nat = Some [2; 0; 1; 1]%nat /\
+  (Z.of_nat (length [2%nat]) = k_tiled_re 7 3 /\ k_tiled_sel 3 7 [2%nat] [6; 5; 4; 3; 2; 1; 0]%nat = Some [2; 2; 1; 0; 2; 1; 0]%nat) /\
+  (k_outcross 2 [1; 1; 2; 2; 3; 3]%Z [seq 0 15; seq 0 15; seq 0 15; seq 0 15] = Some ([3; 1; 1; 2; 2; 3]%Z, 3%nat) /\
+   k_oc_objfn 2 [1; 1; 2; 2; 3; 3]%Z = 3%Z /\ length (k_oc_pairs 6) = 15%nat).
+Proof.
+  split; [split; [apply Qle_bool_iff; reflexivity | split; [reflexivity | vm_compute; reflexivity]]|].
+  split; [vm_compute; reflexivity|]. split; [split; vm_compute; reflexivity|]. repeat split; vm_compute; reflexivity.
+Qed.
+
+(** the binary64 comparisons of the source, as regenerated ([k_sus_guard_f]: the while test on doubles; [k_sus_positive_f]:
+    p > 0.0 on doubles), are on finite doubles the exact-value comparisons that the model and the assembled program use *)
+Theorem C17_kernel_float_comparisons : forall ix last c ptr x,
+  f_finite c = true -> f_finite ptr = true -> f_finite x = true ->
+  k_sus_guard_f ix last c ptr = k_sus_guard ix last (f2q c) (f2q ptr) /\ k_sus_positive_f x = k_sus_positive (f2q x).
+Proof. exact kernel_float_comparisons. Qed.
+Print Assumptions C17_kernel_float_comparisons.
+
+(** * further laws *)
+(** a table on which no exchange of two entries lowers the number of repeats is returned unchanged after exactly one pass,
+    for every exchange order (valid permutation or not) ... *)
+Theorem C17_outcross_fixed_point : forall m x pm rest,
+  (forall i j, (i < j < length x)%nat -> (score m x <= score m (swap i j x))%Z) ->
+  outcross m x (pm :: rest) = Some (x, 1%nat).
+Proof. exact outcross_fixed_point. Qed.
+Print Assumptions C17_outcross_fixed_point.
+
+(** ... hence a second call on the result of a call changes nothing: the result of a call depends on the table at that
+    call only, and outcross shuffling is idempotent *)
+Theorem C17_outcross_idempotent : forall m x pms y n pm rest,
+  Forall (fun pm => Permutation pm (seq 0 (length (all_pairs (length x))))) pms ->
+  outcross m x pms = Some (y, n) -> outcross m y (pm :: rest) = Some (y, 1%nat).
+Proof. exact outcross_idempotent. Qed.
+Print Assumptions C17_outcross_idempotent.
+
+(** scale covariance: multiplying every weight and the offset by the same positive factor selects the same elements
+    (exact-rational pointers; every descending layout, every k, every shuffle) *)
+Theorem C17_sus_scale_covariant : forall c : Q, 0 < c -> forall p order k off perm,
+  sus_q (map (Qmult c) p) order k (c * off) perm = sus_q p order k off perm.
+Proof. exact sus_q_scale. Qed.
+Print Assumptions C17_sus_scale_covariant.
+
+(** non-vacuity of the laws: a valid oracle and its result, a local optimum, a positive factor, finite doubles *)
+Example C17_laws_hyps_satisfiable :
+  Forall (fun pm => Permutation pm (seq 0 (length (all_pairs (length [1; 1; 2; 2; 3; 3]%Z))))) [seq 0 15; seq 0 15; seq 0 15; seq 0 15] /\
+  outcross 2 [1; 1; 2; 2; 3; 3]%Z [seq 0 15; seq 0 15; seq 0 15; seq 0 15] = Some ([3; 1; 1; 2; 2; 3]%Z, 3%nat) /\
+  outcross 2 [3; 1; 1; 2; 2; 3]%Z [seq 0 15] = Some ([3; 1; 1; 2; 2; 3]%Z, 1%nat) /\
+  0 < 3 # 2 /\ sus_q (map (Qmult (3 # 2)) [1#2; 0; 3; 3#2]) [2; 3; 0; 1]%nat 4 ((3 # 2) * (1#4)) [3; 1; 0; 2]%nat = sus_q [1#2; 0; 3; 3#2] [2; 3; 0; 1]%nat 4 (1#4) [3; 1; 0; 2]%nat /\
+  f_finite 0.25%float = true /\ k_sus_guard_f 0 1 0.25%float 0.25%float = true.
+Proof.
+  split; [repeat constructor; apply Permutation_refl|]. repeat split; vm_compute; reflexivity.
+Qed.
